@@ -96,6 +96,11 @@ func (w *walker) flush() {
 // classification of model nodes (used in violation keys)
 
 func (w *walker) class(p string, n *gen.Node) string {
+	if w.er.e.scenario != "" {
+		// dedicated history scenarios name themselves: one key per oracle clause, whatever
+		// the kind of node
+		return w.er.e.scenario
+	}
 	if p == "" {
 		return "root"
 	}
@@ -440,6 +445,13 @@ func (w *walker) opAbsent() {
 	default:
 		name = absentBases[w.rng.Intn(len(absentBases))]
 	}
+	w.checkAbsent(d, name)
+}
+
+// checkAbsent looks up a name the tar does not describe in directory d and expects ENOENT.
+func (w *walker) checkAbsent(d, name string) {
+	c := w.c
+	dn := c.model.Nodes[d]
 	if _, present := dn.Children[name]; present {
 		return
 	}
@@ -817,8 +829,11 @@ func errClass(stateFile, store string) string {
 		// fetch inherits that fetch's cancellation (fs/remote/blob.go fetchRange)
 		return ":context-canceled"
 	case strings.Contains(stateFile, "discard of remaining -"):
-		// db store: readInnerChunks lists every chunk of a node once per stream entry of that
-		// node, the duplicate makes fileReader.ReadAt discard a negative count
+		// the pre-reading loop of fileReader.ReadAt discards a negative count:
+		//   db store:     readInnerChunks lists every chunk of a node once per stream entry of
+		//                 that node (duplicates);
+		//   memory store: an empty regular file (offset 0, innerOffset 0) is taken for a member
+		//                 of the first gzip stream (offset 0) of a min-chunk-size blob
 		return ":negative-discard@" + store
 	case strings.Contains(stateFile, "context deadline exceeded"):
 		return ":deadline-exceeded"
